@@ -3,7 +3,7 @@ CONSTANTS
   Recs = {1}
   Obs = {1}
   Vals = {0, 1, 2}
-  MaxDepth = 99
+  MaxDepth = 8
   Dev = "none"
 VIEW MCView
 CONSTRAINT Depth
